@@ -18,6 +18,8 @@ type ValSpec struct {
 	Ints []int64
 	Strs []string
 	N    int // Bytes size
+	// NilEmpty selects the RawStr variant that encodes "" as a nil slice.
+	NilEmpty bool
 }
 
 // TStruct is the fixed-size struct used with TypeEncoder.
@@ -37,9 +39,18 @@ func structOf(v int64) TStruct {
 // bytes, so the empty string has a zero-length encoding (an "absent" leaf in
 // slim's leaf array). The Encoder interface is public API; slim's leaf array
 // keeps element boundaries itself, so such an encoder is legitimate.
-type RawStr struct{}
+type RawStr struct {
+	// NilEmpty: the empty string is encoded as a nil slice (also a valid
+	// zero-length encoding) instead of an empty non-nil one.
+	NilEmpty bool
+}
 
-func (RawStr) Encode(d interface{}) []byte        { return []byte(d.(string)) }
+func (e RawStr) Encode(d interface{}) []byte {
+	if e.NilEmpty && d.(string) == "" {
+		return nil
+	}
+	return []byte(d.(string))
+}
 func (RawStr) Decode(b []byte) (int, interface{}) { return len(b), string(b) }
 func (RawStr) GetSize(d interface{}) int          { return len(d.(string)) }
 func (RawStr) GetEncodedSize(b []byte) int        { return len(b) }
@@ -103,7 +114,7 @@ func (v *ValSpec) Encoder() encode.Encoder {
 	case "str16":
 		return encode.String16{}
 	case "rawstr":
-		return RawStr{}
+		return RawStr{NilEmpty: v.NilEmpty}
 	case "cpbytes":
 		return CopyBytes{}
 	case "optbytes":
@@ -247,7 +258,7 @@ func (v *ValSpec) FixedSize() bool {
 
 // Prefix returns a ValSpec holding the first n values (n <= Len()).
 func (v *ValSpec) Prefix(n int) *ValSpec {
-	o := &ValSpec{Kind: v.Kind, N: v.N}
+	o := &ValSpec{Kind: v.Kind, N: v.N, NilEmpty: v.NilEmpty}
 	if v.Ints != nil {
 		o.Ints = v.Ints[:n]
 	}
@@ -553,6 +564,7 @@ func genVals(r *RNG, kind string, n int, style int) *ValSpec {
 			}
 		}
 		if kind == "rawstr" {
+			v.NilEmpty = r.Bool()
 			// all-empty encodings degenerate to the no-values representation
 			// (hits carry nil, as with encode.Dummy); keep one non-empty value
 			all := true
